@@ -176,7 +176,7 @@ PROPS = {
         'text': 'build_udta_box / build_ilst_string_item are proved to emit exactly the name and date items with the UTF-8 bytes, or nothing; days_to_ymd is proved to invert days_from_civil up to year 9999; '
                 'the 26^3 language codes round-trip through the packer (both copies); metadata is proved to influence only the language fields and the udta child.',
         'note': 'format! rendering ({:04}/{:02}) and str::as_bytes are assumed std semantics (R10)',
-        'kani': LANG + ['kb_days_to_ymd'], 'assumptions': ['std formatting of {:04}/{:02} integers and str::as_bytes == UTF-8 bytes are assumed'],
+        'kani': LANG + ['kb_days_to_ymd', 'k_metadata_setters'], 'assumptions': ['std formatting of {:04}/{:02} integers and str::as_bytes == UTF-8 bytes are assumed'],
     },
     'C19': {
         'title': 'Header boxes and configuration records follow their specifications\' layouts',
